@@ -328,3 +328,20 @@ Proof.
            | |- context [if ?b then _ else _] => destruct b
            end; cbn; intros H; try discriminate H; reflexivity.
 Qed.
+
+(** opening a file for reading stamps its access time and nothing else: every entry keeps its type, bytes,
+    creation and modification time; no entry appears or disappears *)
+Lemma get_reader_only_atime (s : mstate) (p q : path) :
+  match (fst (msec_sem (MGetReader p) s)) !! q, s !! q with
+  | Some f', Some f => f_type f' = f_type f /\ f_content f' = f_content f /\ f_created f' = f_created f /\
+                       f_modified f' = f_modified f /\ (q <> p -> f_accessed f' = f_accessed f)
+  | None, None => True
+  | _, _ => False
+  end.
+Proof.
+  cbn. destruct (s !! p) as [f|] eqn:Ep; [destruct (f_type f) eqn:Et|]; cbn;
+    try (destruct (s !! q); now auto).
+  destruct (decide (q = p)) as [->|Hne].
+  - rewrite lookup_insert, Ep. cbn. rewrite Et. repeat split; auto. congruence.
+  - rewrite lookup_insert_ne by congruence. destruct (s !! q); auto.
+Qed.
